@@ -27,6 +27,7 @@ type c08Case struct {
 	Extra   []ops.FSEntry `json:"extra,omitempty"`   // extra entries, relative to the target
 	History string        `json:"history,omitempty"` // "", mkdir (state produced by Mkdir of the same forest with Exts)
 	NoTarget bool         `json:"noTarget,omitempty"` // the target directory itself does not exist
+	RootLink bool         `json:"rootLink,omitempty"` // every root directory is a symbolic link to a directory kept beside the roots
 	Exts    []string      `json:"exts,omitempty"`
 }
 
@@ -138,6 +139,33 @@ func c08Check(c c08Case) string {
 	if c.NoTarget {
 		cs.FS = &ops.FSSpec{TargetMissing: true}
 	}
+	if c.RootLink && c.History == "" && !c.NoTarget {
+		// <root> -> ~real/<root>: the node paths exist through the link; what is stored beside the roots is nobody's extra
+		var pre []ops.FSEntry
+		linked := map[string]bool{}
+		for _, e := range cs.FS.Pre {
+			root := e.Path
+			if i := strings.Index(root, "/"); i >= 0 {
+				root = root[:i]
+			}
+			isRoot := false
+			for _, r := range f {
+				if r.Name == root {
+					isRoot = true
+				}
+			}
+			if !isRoot || (e.Path == root && e.Kind != "d") {
+				pre = append(pre, e)
+				continue
+			}
+			if !linked[root] {
+				linked[root] = true
+				pre = append(pre, ops.FSEntry{Path: root, Kind: "l", Data: "~real/" + root})
+			}
+			pre = append(pre, ops.FSEntry{Path: "~real/" + e.Path, Kind: e.Kind, Data: e.Data})
+		}
+		cs.FS.Pre = pre
+	}
 	var res *ops.Result
 	if c.Massive {
 		res = pool("plain").Run(&cs)
@@ -155,6 +183,20 @@ func c08Check(c c08Case) string {
 	}
 	// differences computed from the snapshot
 	state := targetRel(res.Before)
+	if c.RootLink {
+		// read the state through the root links
+		through := map[string]string{}
+		for p, d := range state {
+			switch {
+			case strings.HasPrefix(p, "~real/"):
+				through[strings.TrimPrefix(p, "~real/")] = d
+			case p == "~real" || ops.Kind(d) == "l":
+			default:
+				through[p] = d
+			}
+		}
+		state = through
+	}
 	merged := model.Merge(f)
 	type rootDiff struct{ missing, extra map[string]bool }
 	diffs := make([]rootDiff, len(merged))
@@ -310,6 +352,9 @@ func c08Record(col *collector, c c08Case) {
 	if c.NoTarget {
 		cl = append(cl, "target-dir-absent")
 	}
+	if c.RootLink {
+		cl = append(cl, "root-is-symlink-to-dir")
+	}
 	if c.Target != "" {
 		cl = append(cl, "target:"+c.Target)
 	}
@@ -346,6 +391,7 @@ func c08Gen() *rapid.Generator[c08Case] {
 			c.NoTarget = true
 			return c
 		}
+		c.RootLink = rapid.IntRange(0, 5).Draw(t, "rootLink") == 0
 		n := model.Merge(f).Count()
 		c.Drop = rapid.SliceOfN(rapid.IntRange(0, n-1), 0, 3).Draw(t, "drop")
 		if rapid.IntRange(0, 3).Draw(t, "flip") == 0 {
